@@ -78,7 +78,14 @@ func isNamed(t types.Type, pkg, name string) bool {
 			return false
 		}
 	}
-	if n.Obj().Name() != name || n.Obj().Pkg() == nil {
+	if n.Obj().Pkg() == nil {
+		return false
+	}
+	nm := n.Obj().Name()
+	if ref, ok := canonType[n.Obj()]; ok {
+		nm = ref
+	}
+	if nm != name {
 		return false
 	}
 	pp := n.Obj().Pkg().Path()
